@@ -8,7 +8,7 @@ from contracts import report_native, c03_notes
 def custom_native(ip, runner):
     code = report_native.C03 % {'native': os.path.join(VERIF, 'native')}
     return [native_bounded(runner, 'rating-views', 'the notes of (category, name) are the same alone, among neighbours, in any position, in either role, in text, JSON and --lookup (Terrapin context excluded); unknown names are flagged in every view',
-                           code, 'every database name (gss-* instantiated) alone and inside peers covering the database, both roles, reversed order; 5 unknown names',
+                           code, 'every database name (gss-* instantiated) alone and inside peers covering the database and 12 seeded random peers (120 thorough), both roles, reversed and rotated order with Terrapin context, repeated occurrences of 18 names; 5 unknown names',
                            'ssh_audit:build_struct.fetch_notes (run-time, every database name)')]
 
 
